@@ -40,11 +40,23 @@ def wire(trace):
 
 # ----------------------------------------------------------------------------- fake universe
 class Pkg:
-    def __init__(self, i, key, slot):
-        self.i, self.key, self.slot = i, key, slot
+    """fake package: identity = the object (i), value equality/hash = eq (real packages compare and
+    hash by cpv: the installed a/b-1 and the a/b-1 of a source repo are equal but not identical)"""
+
+    def __init__(self, i, key, slot, eq):
+        self.i, self.key, self.slot, self.eq = i, key, slot, eq
 
     def __repr__(self):
         return f"p{self.i}"
+
+    def __eq__(self, o):
+        return isinstance(o, Pkg) and o.eq == self.eq
+
+    def __ne__(self, o):
+        return not self.__eq__(o)
+
+    def __hash__(self):
+        return hash(("pkg", self.eq))
 
 
 class Ch:
@@ -88,13 +100,20 @@ def blk_class():
     return _BLK
 
 
+def norm_cfg(cfg):
+    cfg = tuple(cfg)
+    if len(cfg) == 4:  # older corpus entries: every package equal only to itself
+        cfg = cfg + (list(range(len(cfg[0]))),)
+    return cfg
+
+
 class Universe:
-    """cfg = (keys, slots, bkeys, match)   keys/slots per package, bkeys/match per blocker"""
+    """cfg = (keys, slots, bkeys, match, eqs)   keys/slots/eqs per package, bkeys/match per blocker"""
 
     def __init__(self, cfg):
-        keys, slots, bkeys, match = cfg
+        keys, slots, bkeys, match, eqs = norm_cfg(cfg)
         self.cfg = cfg
-        self.P = [Pkg(i, k, s) for i, (k, s) in enumerate(zip(keys, slots))]
+        self.P = [Pkg(i, k, s, e) for i, (k, s, e) in enumerate(zip(keys, slots, eqs))]
         self.C = [Ch(i) for i in range(NC)]
         B = blk_class()
         self.B = [B(i, bk, tuple(m)) for i, (bk, m) in enumerate(zip(bkeys, match))]
@@ -245,9 +264,13 @@ def wf_reason(ps, U, a):
 def _wf_reason(ps, U, a):
     t = a[0]
     slotted = [p for v in ps.state.slot_dict.values() for p in v]
+
+    def is_slotted(x):  # identity, as PigeonHoledSlots.remove_slotting
+        return any(q is x for q in slotted)
+
     if t == "add":
         p = U.P[a[2]]
-        if p in ps.pkg_choices or p in slotted:
+        if p in ps.pkg_choices or is_slotted(p):
             return "add-bound"
         if p in ps.vdb_filter:
             return "add-filtered"
@@ -255,10 +278,12 @@ def _wf_reason(ps, U, a):
             return "forced-dup-slot"
     elif t == "rem":
         p = U.P[a[2]]
-        if p not in ps.pkg_choices or p not in slotted:
+        if p not in ps.pkg_choices or not is_slotted(p):
             return "rem-unbound"
         if ps.pkg_choices[p] is not U.C[a[1]]:
             return "rem-wrong-choices"
+        if p in ps.vdb_filter:
+            return "add-filtered"
     elif t == "rep":
         p = U.P[a[2]]
         if ps.state.get_conflicting_slot(p) is None:
@@ -267,12 +292,12 @@ def _wf_reason(ps, U, a):
             return "rep-forced"
         if ps.state.check_limiters(p):
             return "rep-new-blocked"
-        if p in ps.pkg_choices or p in slotted:
-            return "rep-bound"
-        if p in ps.vdb_filter:
-            return "add-filtered"
         old = ps.state.get_conflicting_slot(p)
-        if old is None or old not in ps.pkg_choices:
+        if is_slotted(p) or (p in ps.pkg_choices and not (old == p)):
+            return "rep-bound"
+        if p in ps.vdb_filter or old in ps.vdb_filter:
+            return "add-filtered"
+        if old not in ps.pkg_choices:
             return "rep-noold"
         oc = ps.pkg_choices[old]
         if any(b.match(old) for b, _k in ps.rev_blockers.get(oc, ())):
@@ -408,10 +433,10 @@ def c_api(a, U_bkeys):
 
 
 def c_case(cfg, h):
-    keys, slots, bkeys, match = cfg
-    c = ("{| ckeys := %s; cslots := %s; cbkeys := %s; cmatch := %s |}"
+    keys, slots, bkeys, match, eqs = norm_cfg(cfg)
+    c = ("{| ckeys := %s; cslots := %s; cbkeys := %s; cmatch := %s; ceqs := %s |}"
          % (clist(map(cN, keys), "N"), clist(map(cN, slots), "N"), clist(map(cN, bkeys), "N"),
-            clist([clist(map(cbool, m), "bool") for m in match], "list bool")))
+            clist([clist(map(cbool, m), "bool") for m in match], "list bool"), clist(map(cN, eqs), "N")))
     ev = clist([(f"R {e[1]}" if e[0] == "rb" else "C (" + c_api(e, bkeys) + ")") for e in h], "event")
     return "(" + c + ", " + ev + ")"
 
@@ -424,7 +449,11 @@ def rand_cfg(rng):
     bkeys = [rng.randrange(NK) for _ in range(2)]
     match = [[rng.random() < 0.35 for _ in range(4)] for _ in range(2)]
     slots = PKGS[1] if rng.random() < 0.75 else [0, 0, 0, 0]  # sometimes three packages share a slot
-    return (PKGS[0], slots, bkeys, match)
+    # equal-but-distinct packages (same cpv from the vdb and from a repo): p0 == p1 in 45% of the cases,
+    # sometimes also p2 (only meaningful when it shares the slot)
+    r = rng.random()
+    eqs = [0, 1, 2, 3] if r < 0.55 else ([0, 0, 2, 3] if r < 0.9 else [0, 0, 0, 3])
+    return (PKGS[0], slots, bkeys, match, eqs)
 
 
 def gen_mal(rng, n):
@@ -543,6 +572,14 @@ def gen_exh(st, cfg, depth, alphabet_filter):
     return res
 
 
+def exh_for(st, cfg, depth, alpha, cap, rng):
+    exh = [h for h in gen_exh(st, cfg, depth, alpha) if any(e[0] == "rb" for e in h)]
+    if len(exh) > cap:  # histories cut short by an exception are kept first
+        short = [h for h in exh if len(h) < depth][:cap // 2]
+        exh = short + rng.sample([h for h in exh if len(h) == depth], cap - len(short))
+    return exh
+
+
 def is_nontrivial(st, cfg, h):
     """a rollback crosses a compound operation (remove/replace with nested decrefs, or a replace)"""
     U = Universe(cfg)
@@ -595,7 +632,9 @@ def main(chk: Check):
 
     streams = {"corpus": load_corpus(), "exh": [], "wf": [], "mal": []}
     # bounded-exhaustive: one fixed configuration where blocker 0 (key 0) hits p1, blocker 1 (key 1) hits p3
-    cfg_e = (PKGS[0], PKGS[1], [0, 1], [[False, True, False, False], [False, False, False, True]])
+    cfg_e = (PKGS[0], PKGS[1], [0, 1], [[False, True, False, False], [False, False, False, True]], [0, 1, 2, 3])
+    # the same universe with p0 == p1 (two objects, one value): re-merge of the installed version
+    cfg_e2 = (PKGS[0], PKGS[1], [0, 1], [[False, True, False, False], [False, False, False, True]], [0, 0, 2, 3])
 
     def alpha(e, planlen):
         t = e[0]
@@ -614,18 +653,14 @@ def main(chk: Check):
         return False
 
     depth = chk.n(4, 5)
-    exh = gen_exh(st, cfg_e, depth, alpha)
-    exh = [h for h in exh if any(e[0] == "rb" for e in h)]
-    cap = chk.n(500, 3000)
-    if len(exh) > cap:  # histories cut short by an exception are kept first
-        short = [h for h in exh if len(h) < depth][:cap // 2]
-        exh = short + rng.sample([h for h in exh if len(h) == depth], cap - len(short))
-    streams["exh"] = [(cfg_e, h) for h in exh]
+    cap = chk.n(400, 3000)
+    for cfg_x in (cfg_e, cfg_e2):
+        streams["exh"] += [(cfg_x, h) for h in exh_for(st, cfg_x, depth, alpha, cap // 2, rng)]
     maxlen = chk.n(6, 8)
-    for _ in range(chk.n(500, 3000)):
+    for _ in range(chk.n(400, 3000)):
         cfg = rand_cfg(rng)
         streams["wf"].append((cfg, gen_wf(st, rng, cfg, rng.randrange(3, maxlen + 1))))
-    for _ in range(chk.n(500, 3000)):
+    for _ in range(chk.n(400, 3000)):
         streams["mal"].append((rand_cfg(rng), gen_mal(rng, rng.randrange(2, maxlen + 1))))
 
     failures = []  # (stream, cfg, history, failure)
@@ -644,7 +679,7 @@ def main(chk: Check):
             if failure is not None:
                 failures.append((name, cfg, h, failure))
             if name != "mal" and is_nontrivial(st, cfg, h):
-                chk.nontrivial((tuple(map(tuple, cfg[3])), tuple(cfg[2]), tuple(h)))
+                chk.nontrivial((tuple(map(tuple, cfg[3])), tuple(cfg[2]), tuple(norm_cfg(cfg)[4]), tuple(h)))
         chk.count(name, len(cases))
         if cases:
             chk.sample({"stream": name, "cfg": cases[len(cases) // 2][2], "history": cases[len(cases) // 2][3]})
@@ -659,7 +694,7 @@ def main(chk: Check):
         r = chk.coq_eval("hist", IMPORTS, "(cfg * list event) * tl",
                          [(f"({c[0]}, {wire(c[1])})", True) for _, c in flat_cases],
                          ["mismatches run_hist cases", "where_ (fun i _ => negb (spec_hist_ok i)) cases"],
-                         shard=chk.n(520, 1500))
+                         shard=chk.n(420, 1500))
         if r is not None:
             a_bad = [flat_cases[i] for i in r[0]]
             b_bad = [flat_cases[i] for i in r[1]]
